@@ -94,7 +94,7 @@ def make_letter_fn(name: str, src: str, script, queries=None, validate=None, ext
                 g = FST(src, 'exec')
                 reset_globals()
                 g2 = (script(g, lambda m_: m_) if script2 else script(g)) or g
-                o_parse(g2, f'letter.{name}.marker_run', 'exec' if isinstance(g2.a, ast.Module) else 'eval')
+                o_parse(g2, f'letter.{name}.marker_run', 'exec' if isinstance(g2.a, ast.Module) else 'stmt' if isinstance(g2.a, ast.stmt) else 'eval')
                 if validate is not None:
                     validate(g2, f'letter.{name}.marker_run')     # independent (CPython) judgement of the marker answers
                 ref['pos'] = positions(g2.a)
@@ -127,7 +127,7 @@ def make_letter_fn(name: str, src: str, script, queries=None, validate=None, ext
                 _cmp_query(L, name, lab, gv, rv, kind, ref_lines, xs)
         if not in_sym():
             # concrete mode (sample / replay): CPython itself must agree with the re-lettering claim
-            o_parse(f2, f'letter.{name}.relettered', 'exec' if isinstance(f2.a, ast.Module) else 'eval')
+            o_parse(f2, f'letter.{name}.relettered', 'exec' if isinstance(f2.a, ast.Module) else 'stmt' if isinstance(f2.a, ast.stmt) else 'eval')
         cover('ok')
     fn.__signature__ = inspect.Signature([inspect.Parameter(f'x{i}', inspect.Parameter.POSITIONAL_OR_KEYWORD, annotation=int) for i in range(L.k)])
     fn.__name__ = f'letter_{name}'
